@@ -214,7 +214,10 @@ pub fn parse_max_memory_attribute(nv: &MetaNameValue) -> TokenStream2 {
                 let bytes = if val_str.ends_with("GB") {
                     let num_str = val_str.trim_end_matches("GB");
                     match num_str.parse::<usize>() {
-                        Ok(n) => n * 1024 * 1024 * 1024,
+                        Ok(n) => match n.checked_mul(1024usize.pow(3)) {
+                            Some(bytes) => bytes,
+                            None => return quote! { compile_error!("max_memory is too large") },
+                        },
                         Err(_) => {
                             return quote! { compile_error!("Invalid number format for max_memory") }
                         }
@@ -222,7 +225,10 @@ pub fn parse_max_memory_attribute(nv: &MetaNameValue) -> TokenStream2 {
                 } else if val_str.ends_with("MB") {
                     let num_str = val_str.trim_end_matches("MB");
                     match num_str.parse::<usize>() {
-                        Ok(n) => n * 1024 * 1024,
+                        Ok(n) => match n.checked_mul(1024usize.pow(2)) {
+                            Some(bytes) => bytes,
+                            None => return quote! { compile_error!("max_memory is too large") },
+                        },
                         Err(_) => {
                             return quote! { compile_error!("Invalid number format for max_memory") }
                         }
@@ -230,7 +236,10 @@ pub fn parse_max_memory_attribute(nv: &MetaNameValue) -> TokenStream2 {
                 } else if val_str.ends_with("KB") {
                     let num_str = val_str.trim_end_matches("KB");
                     match num_str.parse::<usize>() {
-                        Ok(n) => n * 1024,
+                        Ok(n) => match n.checked_mul(1024usize.pow(1)) {
+                            Some(bytes) => bytes,
+                            None => return quote! { compile_error!("max_memory is too large") },
+                        },
                         Err(_) => {
                             return quote! { compile_error!("Invalid number format for max_memory") }
                         }
